@@ -248,6 +248,7 @@ pub fn run_build<D: arroy::Distance>(
         }
         b.cancel(|| {
             let n = polls.fetch_add(1, Ordering::Relaxed);
+            crate::explore::tick();
             if let Some(h) = poll_horizon {
                 if n >= h {
                     return true;
